@@ -15,7 +15,7 @@ def tsan():
 STAGE_LIST = [
     simple.Stage("asan", asan, quick=160, thorough=6000, timeout=300, chunk=5),
     simple.Stage("tsan", tsan, quick=96, thorough=4000, timeout=600, tsan=True, chunk=3),
-    simple.Stage("fini-race", tsan, ["--mode", "finirace"], quick=320, thorough=6000, timeout=600, tsan=True, chunk=5),
+    simple.Stage("fini-race", tsan, ["--mode", "finirace"], quick=640, thorough=6000, timeout=600, tsan=True, chunk=5),
 ]
 STAGES = {s.name: s.builder for s in STAGE_LIST}
 RULE = ("one case = 1-2 init..fini rounds (the second is a re-initialisation): 1-3 custom targets, some threaded, the "
